@@ -446,3 +446,428 @@ Proof.
   { induction sched as [|t s IH]; intros c H; simpl; [exact H|]. apply IH. apply ginv_step'. exact H. }
   apply G. apply ginv_init.
 Qed.
+
+(* ====================================================================================== *)
+(* 4. what a thread does when it runs alone (its own code catches what a call raises)        *)
+(* ====================================================================================== *)
+Fixpoint ptrace (fl : list nat) (p : prog) (f : fwd) (k : nat) : list gev * fwd * nat :=
+  match p with
+  | PEnd | PRaise => ([], f, k)
+  | PAcq r => let '(l, f', k') := ptrace fl r f k in (EAcq :: l, f', k')
+  | PRel r => let '(l, f', k') := ptrace fl r f k in (ERel :: l, f', k')
+  | PCall c h r =>
+      if memb k fl
+      then let '(l, f', k') := ptrace fl h f (S k) in (ECall c true :: l, f', k')
+      else let '(l, f', k') := ptrace fl r f (S k) in (ECall c false :: l, f', k')
+  | PLoc o r => ptrace fl r (apply_lop o f) k
+  end.
+
+Fixpoint strace (fl : list nat) (s : list rcall) (f : fwd) (k : nat) : list gev :=
+  match s with
+  | [] => []
+  | c :: r => let '(l, f', k') := ptrace fl (expand f c) f k in l ++ strace fl r f' k'
+  end.
+
+Definition ttrace (th : thread) : list gev :=
+  let '(l, f, k) := ptrace (flt th) (pc th) (fw th) (ncall th) in l ++ strace (flt th) (script th) f k.
+
+Lemma ptrace_settle fl p : forall f k, ptrace fl p f k = ptrace fl (fst (settle p f)) (snd (settle p f)) k.
+Proof. induction p; intros f k; simpl; try reflexivity. apply IHp. Qed.
+
+Lemma load_ttrace fl s : forall f k,
+  let '(p', s', f') := load true s f in
+  strace fl s f k = (let '(l, f'', k') := ptrace fl p' f' k in l ++ strace fl s' f'' k').
+Proof.
+  induction s as [|c r IH]; intros f k; simpl; [reflexivity|].
+  rewrite ptrace_settle. destruct (settle (expand f c) f) as [p f1]; simpl.
+  destruct p; try reflexivity; simpl; apply IH.
+Qed.
+
+Lemma norm_ttrace th : fb th = None -> ttrace (norm th) = ttrace th /\ fb (norm th) = None.
+Proof.
+  intro Hb. unfold norm, ttrace at 2. rewrite ptrace_settle, Hb.
+  destruct (settle (pc th) (fw th)) as [p f]; simpl.
+  destruct p; try (split; reflexivity).
+  - pose proof (load_ttrace (flt th) (script th) f (ncall th)) as H.
+    destruct (load true (script th) f) as [[p' s'] f']. unfold ttrace; simpl. rewrite H. split; reflexivity.
+  - pose proof (load_ttrace (flt th) (script th) f (ncall th)) as H.
+    destruct (load true (script th) f) as [[p' s'] f']. unfold ttrace; simpl. rewrite H. split; reflexivity.
+Qed.
+
+Lemma tstep_ttrace th e th' : fb th = None -> tstep th = Some (e, th') -> ttrace th = e :: ttrace th' /\ fb th' = None.
+Proof.
+  intros Hb. unfold tstep. destruct (pc th) eqn:E; try discriminate; intro H; injection H as <- <-.
+  - destruct (norm_ttrace (set_pc th p (ncall th)) Hb) as [-> ->]. split; [|reflexivity].
+    unfold ttrace; simpl. rewrite E; simpl. destruct (ptrace (flt th) p (fw th) (ncall th)) as [[l f'] k']. reflexivity.
+  - destruct (norm_ttrace (set_pc th p (ncall th)) Hb) as [-> ->]. split; [|reflexivity].
+    unfold ttrace; simpl. rewrite E; simpl. destruct (ptrace (flt th) p (fw th) (ncall th)) as [[l f'] k']. reflexivity.
+  - destruct (norm_ttrace (set_pc th (if faulty th then p1 else p2) (S (ncall th))) Hb) as [-> ->]. split; [|reflexivity].
+    unfold ttrace; simpl. rewrite E; simpl. unfold faulty.
+    destruct (memb (ncall th) (flt th)).
+    + destruct (ptrace (flt th) p1 (fw th) (S (ncall th))) as [[l f'] k']. reflexivity.
+    + destruct (ptrace (flt th) p2 (fw th) (S (ncall th))) as [[l f'] k']. reflexivity.
+Qed.
+
+Lemma tpath_ttrace a l b : tpath a l b -> fb a = None -> ttrace a = l ++ ttrace b /\ fb b = None.
+Proof.
+  induction 1 as [th|a l b e c Hp IH Hs]; intro Hb.
+  - split; [reflexivity | exact Hb].
+  - destruct (IH Hb) as [E Hbb]. destruct (tstep_ttrace _ _ _ Hbb Hs) as [E2 Hbc].
+    split; [|exact Hbc]. rewrite E, E2, <- app_assoc. reflexivity.
+Qed.
+
+Lemma finished_ttrace th : tnf th -> finished th = true -> ttrace th = [].
+Proof.
+  intros [_ Hs] Hf. unfold finished in Hf. unfold ttrace. destruct (pc th) eqn:E; try discriminate.
+  simpl. rewrite (Hs eq_refl). reflexivity.
+Qed.
+
+Lemma init_ttrace s fl : ttrace (init_thread s fl None) = strace fl s fwd0 0.
+Proof. unfold init_thread. destruct (norm_ttrace {| pc := PEnd; script := s; fw := fwd0; ncall := 0; flt := fl; fb := None |} eq_refl) as [-> _]. reflexivity. Qed.
+
+(* ---------- the sequential meaning, call by call ---------- *)
+Definition same3 (f f' : fwd) : Prop := f_now f' = f_now f /\ f_global f' = f_global f /\ f_in f' = f_in f.
+
+Lemma ptrace_calls_cut fl rest tail f :
+  (forall k0, exists f', ptrace fl rest f k0 = (fst (tail k0) ++ [ERel], f', snd (tail k0)) /\ same3 f f') ->
+  forall cs k, exists f',
+    ptrace fl (calls_then cs (PRel PRaise) rest) f k = (fst (cut fl k cs tail) ++ [ERel], f', snd (cut fl k cs tail))
+    /\ same3 f f'.
+Proof.
+  intros Hrest. induction cs as [|c cs IH]; intro k; simpl.
+  - apply Hrest.
+  - destruct (memb k fl).
+    + exists f. simpl. split; [reflexivity | repeat split].
+    + destruct (IH (S k)) as (f' & E & Hs). exists f'. rewrite E.
+      destruct (cut fl (S k) cs tail) as [l k']. simpl. split; [reflexivity | exact Hs].
+Qed.
+
+Definition after_replay (kd : kind) (n : nat) : prog :=
+  PLoc LClearTestTags
+    (PCall (TOutcome kd n) (PCall (TStopTest n) (PRel PRaise) (PRel PRaise))
+       (PCall (TStopTest n) (PRel PRaise) (PRel (PLoc LClearStart PEnd)))).
+
+Lemma expand_outcome f kd n :
+  expand f (ROutcome kd n) = PAcq (calls_then (replay f n) (PRel PRaise) (after_replay kd n)).
+Proof. reflexivity. Qed.
+
+Lemma ptrace_acq fl r f k : ptrace fl (PAcq r) f k = (let '(l, f', k') := ptrace fl r f k in (EAcq :: l, f', k')).
+Proof. reflexivity. Qed.
+
+Lemma ptrace_outcome fl f kd n k : exists f',
+  ptrace fl (expand f (ROutcome kd n)) f k
+  = (section (fst (cut fl k (replay f n) (tail2 fl (TOutcome kd n) (TStopTest n)))), f',
+     snd (cut fl k (replay f n) (tail2 fl (TOutcome kd n) (TStopTest n))))
+  /\ same3 f f'.
+Proof.
+  rewrite expand_outcome.
+  assert (Hrest : forall k0, exists f',
+    ptrace fl (after_replay kd n) f k0
+    = (fst (tail2 fl (TOutcome kd n) (TStopTest n) k0) ++ [ERel], f', snd (tail2 fl (TOutcome kd n) (TStopTest n) k0))
+    /\ same3 f f').
+  { intro k0. unfold after_replay. simpl. destruct (memb k0 fl); destruct (memb (S k0) fl); simpl;
+      eexists; (split; [reflexivity | repeat split]). }
+  destruct (ptrace_calls_cut fl _ _ f Hrest (replay f n) k) as (f' & E & Hs).
+  exists f'. split; [|exact Hs].
+  rewrite ptrace_acq, E. reflexivity.
+Qed.
+
+Lemma ptrace_guarded fl c f k : ptrace fl (guarded c) f k = (section [ECall c (memb k fl)], f, S k).
+Proof. unfold guarded; simpl. destruct (memb k fl); reflexivity. Qed.
+
+(* ---------- for well-formed reporting the thread's log is the expected one ---------- *)
+Definition Rel (p : phase) (f : fwd) (st : sst) : Prop :=
+  f_now f = s_now st /\ f_global f = s_run st /\
+  match p with
+  | Out => f_in f = false /\ f_test f = no_tags /\ s_open st = None
+  | Pre _ => f_in f = true /\ s_open st = Some (f_start f, f_test f)
+  | Post _ => f_in f = true /\ exists x, s_open st = Some x
+  end.
+
+Lemma expected_outcome fl kd n r st k t0 tg : s_open st = Some (t0, tg) ->
+  expected fl (ROutcome kd n :: r) st k =
+  (let '(body, k') := cut fl k ([TTime t0; TStartTest n; TTime (s_time st)] ++ tag_call (s_run st) ++ tag_call tg)
+                          (tail2 fl (TOutcome kd n) (TStopTest n)) in
+   section body ++ expected fl r st k').
+Proof. intro H. simpl. rewrite H. reflexivity. Qed.
+
+Lemma strace_expected fl s : forall p f st k,
+  wf_script p s = true -> Rel p f st -> strace fl s f k = expected fl s st k.
+Proof.
+  induction s as [|c r IH]; intros p f st k Hwf HR; [reflexivity|].
+  destruct HR as (Hn & Hg & Hp).
+  destruct c as [a|tn tg|n|n|kd n|g|].
+  - (* time *)
+    simpl. apply (IH p); [exact Hwf|]. repeat split; simpl; auto.
+  - (* tags *)
+    simpl in Hwf. simpl strace. simpl ptrace.
+    destruct p as [|m|m]; simpl in Hp.
+    + destruct Hp as (Hi & Ht & Ho). simpl expected. rewrite Ho.
+      apply (IH Out); [exact Hwf|]. unfold apply_lop; rewrite Hi. repeat split; simpl; auto. rewrite Hg; reflexivity.
+    + destruct Hp as (Hi & Ho). simpl expected. rewrite Ho.
+      apply (IH (Pre m)); [exact Hwf|]. unfold apply_lop; rewrite Hi. repeat split; simpl; auto.
+    + destruct Hp as (Hi & [[t0 x] Ho]). simpl expected. rewrite Ho.
+      apply (IH (Post m)); [exact Hwf|]. unfold apply_lop; rewrite Hi. repeat split; simpl; eauto.
+  - (* startTest *)
+    simpl in Hwf. destruct p; try discriminate. destruct Hp as (Hi & Ht & Ho).
+    simpl. apply (IH (Pre n)); [exact Hwf|]. repeat split; simpl; auto.
+    rewrite Ht. unfold now_tv, s_time. rewrite Hn. reflexivity.
+  - (* stopTest *)
+    simpl in Hwf. destruct p as [|m|m]; try discriminate;
+      apply andb_true_iff in Hwf as [_ Hwf]; simpl; apply (IH Out); try exact Hwf; repeat split; simpl; auto.
+  - (* outcome *)
+    simpl in Hwf. destruct p as [|m|m]; try discriminate. apply andb_true_iff in Hwf as [_ Hwf].
+    destruct Hp as (Hi & Ho).
+    destruct (ptrace_outcome fl f kd n k) as (f' & E & (S1 & S2 & S3)).
+    change (strace fl (ROutcome kd n :: r) f k)
+      with (let '(l, f', k') := ptrace fl (expand f (ROutcome kd n)) f k in l ++ strace fl r f' k').
+    rewrite E. rewrite (expected_outcome fl kd n r st k _ _ Ho).
+    assert (Hrep : replay f n = [TTime (f_start f); TStartTest n; TTime (s_time st)] ++ tag_call (s_run st) ++ tag_call (f_test f)).
+    { unfold replay, tag_call, now_tv, s_time. rewrite Hn, Hg. reflexivity. }
+    rewrite <- Hrep.
+    destruct (cut fl k (replay f n) (tail2 fl (TOutcome kd n) (TStopTest n))) as [body k'] eqn:Ec. simpl fst; simpl snd.
+    f_equal. apply (IH (Post n)); [exact Hwf|].
+    repeat split; try congruence. eauto.
+  - (* guarded calls *)
+    simpl in Hwf.
+    destruct g.
+    + destruct p; try discriminate. destruct Hp as (Hi & Ht & Ho).
+      assert (HR' : Rel Out (apply_lop LStartRun f) {| s_now := None; s_run := no_tags; s_open := s_open st |})
+        by (repeat split; simpl; auto).
+      simpl strace. simpl ptrace. simpl expected.
+      destruct (memb k fl); simpl; do 3 f_equal; apply (IH Out _ _ _ Hwf HR').
+    + assert (HR' : Rel p f st) by (repeat split; auto).
+      simpl. destruct (memb k fl); simpl; do 3 f_equal; apply (IH p _ _ _ Hwf HR').
+    + assert (HR' : Rel p f st) by (repeat split; auto).
+      simpl. destruct (memb k fl); simpl; do 3 f_equal; apply (IH p _ _ _ Hwf HR').
+    + assert (HR' : Rel p f st) by (repeat split; auto).
+      simpl. destruct (memb k fl); simpl; do 3 f_equal; apply (IH p _ _ _ Hwf HR').
+    + assert (HR' : Rel p f st) by (repeat split; auto).
+      simpl. destruct (memb k fl); simpl; do 3 f_equal; apply (IH p _ _ _ Hwf HR').
+  - discriminate.
+Qed.
+
+Lemma rel0 : Rel Out fwd0 sst0.
+Proof. repeat split. Qed.
+
+(* ====================================================================================== *)
+(* 5. termination: the harness scheduler always runs every thread to its end                *)
+(* ====================================================================================== *)
+Lemma settle_psize p : forall f, psize (fst (settle p f)) = psize p.
+Proof. induction p; intro f; simpl; auto. Qed.
+
+Lemma psize_calls_then cs h r : psize (calls_then cs h r) <= length cs + Nat.max (psize h) (psize r).
+Proof. induction cs as [|c cs IH]; simpl; lia. Qed.
+
+Lemma expand_bound f c : psize (expand f c) <= call_bound.
+Proof.
+  unfold call_bound. destruct c as [a|n g|n|n|k n|g|]; simpl; try lia.
+  - pose proof (psize_calls_then (replay f n) (PRel PRaise) (after_replay k n)) as H.
+    assert (L : length (replay f n) <= 5) by (unfold replay; destruct (any_tags (f_global f)), (any_tags (f_test f)); simpl; lia).
+    change (psize (PRel PRaise)) with 1 in H. change (psize (after_replay k n)) with 3 in H.
+    change (PLoc LClearTestTags _) with (after_replay k n). simpl in H. lia.
+  - destruct g; simpl; lia.
+Qed.
+
+Lemma load_measure cont s : forall f,
+  let '(p, s', f') := load cont s f in psize p + call_bound * length s' <= call_bound * length s.
+Proof.
+  induction s as [|c r IH]; intro f; simpl; [lia|].
+  pose proof (settle_psize (expand f c) f) as Hs. pose proof (expand_bound f c) as Hb.
+  destruct (settle (expand f c) f) as [p f']; simpl in Hs.
+  destruct p; simpl in *; try lia.
+  - specialize (IH f'). destruct (load cont r f') as [[p' s'] f'']. lia.
+  - destruct cont.
+    + specialize (IH f'). destruct (load true r f') as [[p' s'] f'']. lia.
+    + simpl. lia.
+Qed.
+
+Lemma resume_measure fbs : forall f,
+  let '(p, s', f', fbs') := resume fbs f in
+  psize p + call_bound * length s' + call_bound * length (concat fbs') <= call_bound * length (concat fbs).
+Proof.
+  induction fbs as [|s r IH]; intro f; simpl; [lia|].
+  pose proof (load_measure false s f) as HL. rewrite app_length.
+  destruct (load false s f) as [[p s'] f'].
+  destruct p; simpl in *; try lia.
+  specialize (IH f'). destruct (resume r f') as [[[p'' s''] f''] fbs']. lia.
+Qed.
+
+Lemma norm_measure th : tmeasure (norm th) <= tmeasure th.
+Proof.
+  unfold norm, tmeasure. pose proof (settle_psize (pc th) (fw th)) as Hs.
+  destruct (settle (pc th) (fw th)) as [p f]; simpl in Hs. rewrite <- Hs.
+  destruct p; simpl; destruct (fb th) as [fbs|]; simpl; try lia.
+  - pose proof (load_measure false (script th) f) as HL.
+    destruct (load false (script th) f) as [[p' s'] f'].
+    destruct p'; simpl in *; try lia.
+    pose proof (resume_measure fbs f') as HR. destruct (resume fbs f') as [[[p'' s''] f''] fbs']. simpl. lia.
+  - pose proof (load_measure true (script th) f) as HL.
+    destruct (load true (script th) f) as [[p' s'] f']. simpl. lia.
+  - pose proof (resume_measure fbs f) as HR. destruct (resume fbs f) as [[[p'' s''] f''] fbs']. simpl. lia.
+  - pose proof (load_measure true (script th) f) as HL.
+    destruct (load true (script th) f) as [[p' s'] f']. simpl. lia.
+Qed.
+
+Lemma tstep_measure th e th' : tstep th = Some (e, th') -> tmeasure th' < tmeasure th.
+Proof.
+  unfold tstep. destruct (pc th) eqn:E; try discriminate; intro H; injection H as <- <-.
+  - pose proof (norm_measure (set_pc th p (ncall th))) as H. unfold tmeasure in *. simpl in *. rewrite E. simpl. lia.
+  - pose proof (norm_measure (set_pc th p (ncall th))) as H. unfold tmeasure in *. simpl in *. rewrite E. simpl. lia.
+  - pose proof (norm_measure (set_pc th (if faulty th then p1 else p2) (S (ncall th)))) as H.
+    unfold tmeasure in *. simpl in *. rewrite E. simpl. destruct (faulty th); lia.
+Qed.
+
+Definition msum (l : list thread) : nat := fold_right (fun th a => tmeasure th + a) 0 l.
+
+Lemma msum_upd l : forall t th th', nth_error l t = Some th -> tmeasure th' < tmeasure th -> msum (upd l t th') < msum l.
+Proof.
+  induction l as [|a l IH]; intros [|t] th th' H Hlt; simpl in *; try discriminate.
+  - injection H as ->. lia.
+  - specialize (IH t th th' H Hlt). lia.
+Qed.
+
+Lemma step_measure c t c' : step c t = Some c' -> cmeasure c' < cmeasure c.
+Proof.
+  intro Hs. apply step_unfold in Hs as (th & e & th' & s' & Et & Es & Ee & ->). unfold cmeasure; simpl.
+  apply (msum_upd _ _ _ _ Et). eapply tstep_measure; eauto.
+Qed.
+
+Lemma pick_from_some c cands : forall c', pick_from c cands = Some c' -> exists t, step c t = Some c'.
+Proof.
+  induction cands as [|t r IH]; intros c' H; simpl in H; [discriminate|].
+  destruct (step c t) eqn:E; [injection H as <-; eauto | apply IH; exact H].
+Qed.
+
+Lemma pick_from_none c cands : pick_from c cands = None -> forall t, In t cands -> step c t = None.
+Proof.
+  induction cands as [|u r IH]; intros H t Hin; simpl in *; [contradiction|].
+  destruct (step c u) eqn:E; [discriminate|]. destruct Hin as [<-|Hin]; [exact E | apply IH; assumption].
+Qed.
+
+Lemma unfinished_exists l : forallb finished l = false -> exists t th, nth_error l t = Some th /\ finished th = false.
+Proof.
+  induction l as [|a l IH]; simpl; [discriminate|].
+  destruct (finished a) eqn:E; simpl.
+  - intro H. destruct (IH H) as (t & th & Ht & Hf). exists (S t), th. auto.
+  - intros _. exists 0, a. auto.
+Qed.
+
+Lemma stuck_finished c : Inv c -> (forall t, t < length (ths c) -> step c t = None) -> all_finished c = true.
+Proof.
+  intros HI Hst. unfold all_finished. destruct (forallb finished (ths c)) eqn:E; [reflexivity|].
+  destruct (inv_no_deadlock c HI (unfinished_exists _ E)) as [t Ht].
+  exfalso. apply Ht. destruct (Nat.lt_ge_cases t (length (ths c))) as [Hlt|Hge]; [apply Hst; exact Hlt|].
+  unfold step. apply nth_error_None in Hge. rewrite Hge. reflexivity.
+Qed.
+
+Lemma ginv_sched_step l c t : GInv l c -> GInv l (sched_step c t).
+Proof.
+  intro H. unfold sched_step. destruct (pick_from c (rot (length (ths c)) t)) as [c'|] eqn:E; [|exact H].
+  destruct (pick_from_some _ _ _ E) as [u Hu]. eapply ginv_step; eauto.
+Qed.
+
+Lemma drain_finishes l fuel : forall c, GInv l c -> cmeasure c <= fuel ->
+  GInv l (drain fuel c) /\ all_finished (drain fuel c) = true.
+Proof.
+  induction fuel as [|k IH]; intros c HG Hm; simpl.
+  - split; [exact HG|]. apply stuck_finished; [apply HG|].
+    intros t _. destruct (step c t) eqn:E; [|reflexivity]. apply step_measure in E. lia.
+  - destruct (pick_from c (seq 0 (length (ths c)))) as [c'|] eqn:E.
+    + destruct (pick_from_some _ _ _ E) as [u Hu]. apply IH; [eapply ginv_step; eauto|].
+      apply step_measure in Hu. lia.
+    + split; [exact HG|]. apply stuck_finished; [apply HG|].
+      intros t Ht. apply (pick_from_none _ _ E). apply in_seq. lia.
+Qed.
+
+Lemma run_ginv l sched : GInv l (run l sched) /\ all_finished (run l sched) = true.
+Proof.
+  unfold run. apply drain_finishes; [|lia].
+  assert (G : forall c, GInv l c -> GInv l (fold_left sched_step sched c)).
+  { induction sched as [|t s IH]; intros c H; simpl; [exact H|]. apply IH. apply ginv_sched_step. exact H. }
+  apply G. apply ginv_init.
+Qed.
+
+(* ====================================================================================== *)
+(* 6. the model meets the statement                                                          *)
+(* ====================================================================================== *)
+Lemma finished_sem_free c : Inv c -> all_finished c = true -> sem c = None.
+Proof.
+  intros [HI HB] Hf. destruct (sem c) as [u|] eqn:Es; [|reflexivity]. exfalso.
+  assert (Hu : u < length (ths c)) by (apply HB; reflexivity).
+  destruct (nth_error (ths c) u) as [th|] eqn:Eu; [|apply nth_error_None in Eu; lia].
+  pose proof (HI u th Eu) as Hin. unfold holds in Hin. rewrite Es, Nat.eqb_refl in Hin.
+  unfold all_finished in Hf. rewrite forallb_forall in Hf. specialize (Hf th (nth_error_In _ _ Eu)).
+  destruct Hin as [Hw _]. unfold finished in Hf. destruct (pc th); simpl in *; discriminate.
+Qed.
+
+Lemma thread_log_complete l c t sc fl :
+  GInv l c -> all_finished c = true -> nth_error l t = Some (sc, fl) ->
+  proj t (glog c) = strace fl sc fwd0 0.
+Proof.
+  intros (HI & HM & [HL HP]) Hf Ht.
+  assert (H0 : nth_error (ths (init l)) t = Some (init_thread sc fl None)).
+  { simpl. rewrite (map_nth_error _ _ _ Ht). reflexivity. }
+  destruct (HP t _ H0) as (th & Hn & Hp).
+  assert (Hb0 : fb (init_thread sc fl None) = None).
+  { unfold init_thread. apply norm_ttrace. reflexivity. }
+  destruct (tpath_ttrace _ _ _ Hp Hb0) as [E _].
+  rewrite init_ttrace in E.
+  pose proof (finished_sem_free c HI Hf) as Hs.
+  destruct HI as [HI _]. specialize (HI t th Hn). unfold holds in HI. rewrite Hs in HI. destruct HI as [_ Hnf].
+  unfold all_finished in Hf. rewrite forallb_forall in Hf. specialize (Hf th (nth_error_In _ _ Hn)).
+  rewrite (finished_ttrace th Hnf Hf), app_nil_r in E. symmetry; exact E.
+Qed.
+
+Theorem model_meets_spec : forall i, spec_okb i (model i) = true.
+Proof.
+  intros [l sched]. unfold spec_okb, model. simpl.
+  destruct (run_ginv l sched) as [HG Hf]. set (c := run l sched) in *.
+  pose proof HG as (HI & HM & [HL HP]).
+  pose proof (finished_sem_free c HI Hf) as Hs.
+  rewrite Hf, Hs. simpl.
+  apply andb_true_iff; split.
+  - apply mon_sectb. unfold MonInv in HM. rewrite HL in HM. simpl in HM. rewrite map_length in HM. rewrite HM, Hs. reflexivity.
+  - apply forallb_idx_spec. intros t [sc fl] Ht. simpl. unfold thread_okb; simpl.
+    destruct (wf_script Out sc) eqn:Ew; [|reflexivity].
+    apply (list_eqb_spec _ gev_eqb_spec).
+    rewrite (thread_log_complete l c t sc fl HG Hf Ht).
+    apply (strace_expected fl sc Out fwd0 sst0 0 Ew rel0).
+Qed.
+
+(* ---------- the executable statement implies the readable one ---------- *)
+Lemma sectb_sections n log :
+  (sectb n None log = true -> Sectioned n log)
+  /\ (forall t, sectb n (Some t) log = true ->
+        exists body secs, log = map (pair t) body ++ (t, ERel) :: flat_map render secs
+                          /\ Forall is_call body
+                          /\ Forall (fun s => fst s < n /\ Forall is_call (snd s)) secs).
+Proof.
+  induction log as [|[u e] r [IH1 IH2]]; split.
+  - intros _. exists []. split; [reflexivity | constructor].
+  - intros t H; discriminate.
+  - simpl. destruct e; try discriminate. intro H. apply andb_true_iff in H as [Hlt H].
+    apply Nat.ltb_lt in Hlt. destruct (IH2 u H) as (body & secs & -> & Hb & Hs).
+    exists ((u, body) :: secs). split.
+    + simpl. unfold render at 1. simpl. unfold section. rewrite map_app. simpl. rewrite <- app_assoc. reflexivity.
+    + constructor; [split; assumption | exact Hs].
+  - intros t. simpl. destruct e.
+    + discriminate.
+    + intro H. apply andb_true_iff in H as [Ht H]. apply Nat.eqb_eq in Ht; subst u.
+      destruct (IH1 H) as (secs & -> & Hs). exists [], secs. repeat split; [constructor | exact Hs].
+    + intro H. apply andb_true_iff in H as [Ht H]. apply Nat.eqb_eq in Ht; subst u.
+      destruct (IH2 t H) as (body & secs & -> & Hb & Hs).
+      exists (ECall c raised :: body), secs. repeat split; [constructor; [exact I | exact Hb] | exact Hs].
+Qed.
+
+Theorem spec_okb_sound : forall i o, spec_okb i o = true -> Spec i o.
+Proof.
+  intros i o H. unfold spec_okb in H.
+  apply andb_true_iff in H as [H H4]. apply andb_true_iff in H as [H H3]. apply andb_true_iff in H as [H1 H2].
+  repeat split.
+  - destruct (o_deadlock o); [discriminate | reflexivity].
+  - exact H2.
+  - apply sectb_sections. exact H3.
+  - intros t sc fl Ht Hw. rewrite forallb_idx_spec in H4. specialize (H4 t (sc, fl) Ht).
+    unfold thread_okb in H4; simpl in H4. rewrite Hw in H4. apply (list_eqb_spec _ gev_eqb_spec). exact H4.
+Qed.
